@@ -523,3 +523,110 @@ func maxAbsV(a []float64) float64 {
 	}
 	return x
 }
+
+/* Householder reflector sequences of the reductions (reference side)
+ * -------------------------------------------------------------------------- */
+
+// houseRatio replicates householder.Run on x (x -> +|x| e1) and returns the
+// reflector (beta, nu) together with sigma/x0^2 when x0 > 0 (+Inf otherwise):
+// in that branch nu0 = -sigma/(x0+mu), and for sigma/x0^2 -> 0 the library
+// divides by a vanishing nu0 (nu -> infinity, beta -> 0).
+func houseRatio(x []float64) (float64, []float64, float64) {
+	sigma := 0.0
+	for _, v := range x[1:] {
+		sigma += v * v
+	}
+	nu := make([]float64, len(x))
+	nu[0] = 1
+	if sigma == 0 {
+		return 0, nu, math.Inf(1)
+	}
+	mu := math.Sqrt(x[0]*x[0] + sigma)
+	ratio := math.Inf(1)
+	var nu0 float64
+	if x[0] <= 0 {
+		nu0 = x[0] - mu
+	} else {
+		nu0 = -sigma / (x[0] + mu)
+		ratio = sigma / (x[0] * x[0])
+	}
+	beta := 2 * nu0 * nu0 / (sigma + nu0*nu0)
+	for i := 1; i < len(x); i++ {
+		nu[i] = x[i] / nu0
+	}
+	return beta, nu, ratio
+}
+
+// reflect applies I - beta nu nu^T to the rows r0.. (left) or columns c0..
+// (right) of a.
+func reflectLeft(a *mat, beta float64, nu []float64, r0 int) {
+	for j := 0; j < a.c; j++ {
+		s := 0.0
+		for i, v := range nu {
+			s += v * a.at(r0+i, j)
+		}
+		s *= beta
+		for i, v := range nu {
+			a.add(r0+i, j, -s*v)
+		}
+	}
+}
+
+func reflectRight(a *mat, beta float64, nu []float64, c0 int) {
+	for i := 0; i < a.r; i++ {
+		s := 0.0
+		for j, v := range nu {
+			s += a.at(i, c0+j) * v
+		}
+		s *= beta
+		for j, v := range nu {
+			a.add(i, c0+j, -s*v)
+		}
+	}
+}
+
+// hessenbergDegeneracy: smallest sigma/x0^2 over the reflectors of the
+// Householder reduction to Hessenberg (tridiagonal for symmetric input) form.
+func hessenbergDegeneracy(a *mat) float64 {
+	a = a.clone()
+	n := a.r
+	worst := math.Inf(1)
+	for k := 0; k < n-2; k++ {
+		x := make([]float64, n-k-1)
+		for i := range x {
+			x[i] = a.at(k+1+i, k)
+		}
+		beta, nu, ratio := houseRatio(x)
+		worst = math.Min(worst, ratio)
+		reflectLeft(a, beta, nu, k+1)
+		reflectRight(a, beta, nu, k+1)
+	}
+	return worst
+}
+
+// bidiagDegeneracy: the same for the column and row reflectors of the
+// Householder bidiagonalisation (m >= n).
+func bidiagDegeneracy(a *mat) float64 {
+	a = a.clone()
+	m, n := a.r, a.c
+	worst := math.Inf(1)
+	for j := 0; j < n; j++ {
+		x := make([]float64, m-j)
+		for i := range x {
+			x[i] = a.at(j+i, j)
+		}
+		beta, nu, ratio := houseRatio(x)
+		worst = math.Min(worst, ratio)
+		reflectLeft(a, beta, nu, j)
+		if j < n-2 {
+			y := make([]float64, n-j-1)
+			for i := range y {
+				y[i] = a.at(j, j+1+i)
+			}
+			beta, nu, ratio := houseRatio(y)
+			worst = math.Min(worst, ratio)
+			reflectRight(a, beta, nu, j+1)
+		}
+	}
+	return worst
+}
